@@ -1430,9 +1430,14 @@ impl Block {
                 total_number_of_non_fee_transactions += 1;
             }
 
-            if (transaction.is_golden_ticket() || transaction.is_normal_transaction())
-                && !transaction.is_atr_transaction()
-            {
+            //
+            // every transaction a user signs pays its fee to the block : Normal and
+            // GoldenTicket, and also Bound (NFT), BlockStake and Vip. the difference
+            // between their inputs and outputs is counted nowhere else, so leaving
+            // one of them out destroys those tokens. (the fees of the ATR
+            // transactions are collected in total_fees_atr below)
+            //
+            if !transaction.is_only_valid_inside_block() {
                 cv.total_bytes_new += transaction.get_serialized_size() as u64;
                 cv.total_fees_new += transaction.total_fees;
             }
